@@ -126,6 +126,17 @@ def run(tier: str) -> int:
                 continue
             path = e1.save_replay(PROP, dict(property=PROP, kind="compact", name=spec["name"], sources=spec["sources"], problem=pr))
             rep.violation(f"{spec['name']} {pr.get('vec')}: {pr['kind']}: {pr['detail'][:200]}", path)
+    # the number printed for an enum name in compact mode must be that member's value: where the
+    # repository documents the value itself (instruction documentation in the intrinsic wrappers'
+    # docstrings) the enum table must agree with it
+    from . import c16
+
+    _n_doc, doc_rows = c16.enum_obligations()
+    for row in doc_rows:
+        if row["kind"] != "enum_value_vs_documentation":
+            continue
+        path = e1.save_replay(PROP, dict(property=PROP, kind="table_row", row=row))
+        rep.violation(f"compact mode prints {row['table']} for {row['enum']}.{row['member']}, the documented value of the token is {row['documented']} ({row['where']})", path)
     e2cov = {}
     try:
         from .. import e2
